@@ -113,7 +113,14 @@ def lib_roundtrip(rng, res):
         os.makedirs("src")
         open("src/a.txt", "w").write("a %d\n" % rng.randrange(99))
         open("b.txt", "w").write("b\n")
-        mode = rng.choice(["run", "record"])
+        mode = rng.choice(["run", "record", "record_with_args"])
+        # library-only arguments of in_toto_record_stop
+        stop_kw = {}
+        if mode == "record_with_args":
+            stop_kw = {"command": ["tar", "czf", "x.tgz", "src"], "byproducts": {"stdout": "a src\n", "stderr": "", "return-value": 0},
+                       "environment": {"variables": ["CI=1"], "workdir": "/build"}}
+            for key in rng.sample(sorted(stop_kw), rng.randrange(0, 3)):
+                stop_kw.pop(key)
         for dsse in (False, True):
             for f in os.listdir("."):
                 if f.endswith(".link") or f.endswith("-unfinished"):
@@ -127,7 +134,7 @@ def lib_roundtrip(rng, res):
                 else:
                     rl.in_toto_record_start("st", ["."], signer=k.signer, use_dsse=dsse)
                     open("out.txt", "w").write("hi\n")
-                    rl.in_toto_record_stop("st", ["."], signer=k.signer)
+                    rl.in_toto_record_stop("st", ["."], signer=k.signer, **stop_kw)
                     md = Metadata.load("st.%s.link" % k.keyid[:8])
             loaded = Metadata.load("st.%s.link" % k.keyid[:8])
             payload = W.canon(attr.asdict(loaded.get_payload()))
@@ -150,6 +157,13 @@ def lib_roundtrip(rng, res):
             outs[dsse] = {"payload": payload, "sig": sig, "sig_other_key": sig2,
                           "match": [sorted(x) for x in rep], "is_envelope": type(loaded).__name__,
                           "cli_match_products_equal_tree": cli_equal, "cli_match_products_changed_tree": cli_differ}
+        import json as _json
+        for dsse in (False, True):
+            pl = _json.loads(outs[dsse]["payload"], strict=False)
+            for key, val in stop_kw.items():
+                if pl.get(key) != val:
+                    res.fail("oracle", {"op": "lib_roundtrip", "tool": mode, "key": k.kind, "dsse": dsse},
+                             {"why": "in_toto_record_stop(%s=...) was not recorded in the link" % key, "recorded": pl.get(key), "passed": val})
         same = {k2: v for k2, v in outs[False].items() if k2 != "is_envelope"} == \
                {k2: v for k2, v in outs[True].items() if k2 != "is_envelope"}
         ok_kinds = outs[False]["is_envelope"] == "Metablock" and outs[True]["is_envelope"] == "Envelope"
